@@ -203,3 +203,66 @@ pub fn par_replay(cases: &[Value], rep: &mut Report, f: impl Fn(&[Value], &mut R
     rep.merge(r);
   }
 }
+
+// ---------------------------------------------------------------------------------------------
+// Hang watchdog: a call into the code under test that does not return is data (a violation), not a stuck check.
+// ---------------------------------------------------------------------------------------------
+use std::sync::atomic::AtomicU64;
+use std::sync::atomic::Ordering as AtomicOrdering;
+use std::sync::Mutex;
+
+static PROGRESS: AtomicU64 = AtomicU64::new(0);
+static CURRENT: Mutex<Vec<(std::thread::ThreadId, String)>> = Mutex::new(Vec::new());
+
+/// Declares the case this thread is about to execute (for the watchdog's report) and counts progress.
+pub fn note_case(ctx: &Value) {
+  PROGRESS.fetch_add(1, AtomicOrdering::Relaxed);
+  let id = std::thread::current().id();
+  let text = ctx.to_string();
+  if let Ok(mut cur) = CURRENT.lock() {
+    if let Some(slot) = cur.iter_mut().find(|(t, _)| *t == id) {
+      slot.1 = text;
+    } else {
+      cur.push((id, text));
+    }
+  }
+}
+
+/// Starts the watchdog: if no case completes for `stall_secs`, writes a report containing a single mismatch
+/// `<prop>/hang` that lists the cases in flight, and terminates the process successfully (the report carries the verdict).
+pub fn start_watchdog(prop: String, report_path: String, stall_secs: u64) {
+  std::thread::spawn(move || {
+    let mut last = PROGRESS.load(AtomicOrdering::Relaxed);
+    let mut idle = 0u64;
+    loop {
+      std::thread::sleep(std::time::Duration::from_secs(1));
+      let now = PROGRESS.load(AtomicOrdering::Relaxed);
+      if now != last {
+        last = now;
+        idle = 0;
+        continue;
+      }
+      idle += 1;
+      if idle >= stall_secs && now > 0 {
+        let in_flight: Vec<Value> = CURRENT
+          .lock()
+          .map(|c| c.iter().map(|(_, s)| serde_json::from_str(s).unwrap_or(Value::String(s.clone()))).collect())
+          .unwrap_or_default();
+        let mut rep = Report::new();
+        rep.evaluations = now;
+        rep.nontrivial("hang-a");
+        rep.nontrivial("hang-b");
+        rep.mismatch(
+          &format!("{prop}/hang"),
+          &json!({"in_flight": in_flight}),
+          json!("every call returns"),
+          json!(format!("no call returned for {stall_secs}s")),
+          "a call into the code under test did not return (infinite loop / unbounded recursion)",
+        );
+        rep.write(&report_path);
+        eprintln!("WATCHDOG: no progress for {stall_secs}s; reported as a hang");
+        std::process::exit(0);
+      }
+    }
+  });
+}
